@@ -226,4 +226,53 @@ C14_Released(cfg, obs) ==
     /\ (~PeerVanished(obs) => \E n \in Idx(obs) : obs[n].k = "closed")
     /\ \A n \in Idx(obs) : obs[n].k = "end" => obs[n].res = "quiet"
 
+-----------------------------------------------------------------------------
+(* C08 — the client tolerates any server and reports establishment truthfully *)
+(* (client role: `in` = what the raw server sent, `out` = what the client    *)
+(* wrote, `ret` = result of EstablishSession and the channel's own report)   *)
+C08_NoPanic(obs) == \A n \in Idx(obs) : obs[n].k # "panic"
+C08_Returns(obs) == \E n \in Idx(obs) : obs[n].k = "ret"
+
+C08_Truthful(obs) ==
+  \A n \in Idx(obs) : obs[n].k = "ret" =>
+    /\ ((obs[n].res = "nil" /\ obs[n].st = "established") =>
+          LET c == LastIdx(obs, n, LAMBDA e : e.k = "in")
+          IN /\ c > 0 /\ IsInSes(obs[c]) /\ obs[c].st = "established"
+             /\ obs[n].id = obs[c].id /\ obs[n].to = obs[c].to /\ obs[n].frm = obs[c].frm
+             /\ obs[n].op = "established")
+    /\ ((obs[n].res = "nil" /\ obs[n].reason = "y") => obs[n].st = "established")
+
+C08_EchoId(obs) ==
+  \A n \in Idx(obs) : (IsOutSes(obs[n]) /\ LastIdx(obs, n, IsOutSes) > 0) =>
+    LET c == LastIdx(obs, n, IsInSes)
+    IN c > 0 => obs[n].id = obs[c].id
+
+C08_CredsOnlyOnRequest(obs) ==
+  \A n \in Idx(obs) : (IsOutSes(obs[n]) /\ (obs[n].scheme # "" \/ obs[n].cred # "")) =>
+    LET p == LastIdx(obs, n, LAMBDA e : e.k = "in" \/ IsOutSes(e))
+    IN p > 0 /\ IsInSes(obs[p]) /\ obs[p].st = "authenticating"
+
+C08_ClosesOnTerminal(obs) ==
+  \A n \in Idx(obs) :
+    (/\ IsInSes(obs[n]) /\ obs[n].st \in {"finished", "failed"}
+     /\ \A m \in (n + 1) .. Len(obs) : obs[m].k # "panic") =>
+      \E m \in (n + 1) .. Len(obs) : obs[m].k = "closed"
+
+(* C09, client role: once tls was confirmed to the client everything it writes is under tls *)
+C09_ClientUpgrade(obs) ==
+  \A n \in Idx(obs) :
+    (IsInSes(obs[n]) /\ obs[n].st = "negotiating" /\ obs[n].enc = "tls" /\ obs[n].wire = "clear" /\
+     LET p == LastIdx(obs, n, LAMBDA e : e.k = "in" \/ IsOutSes(e))
+     IN p > 0 /\ IsOutSes(obs[p]) /\ obs[p].st = "negotiating") =>
+      \A m \in (n + 1) .. Len(obs) :   \* "bin" = the TLS handshake records themselves
+        (obs[m].k = "out" /\ obs[m].kind # "bin") => obs[m].wire = "tls"
+
+(* C06, client role *)
+C06_ClientSendGuard(obs) ==
+  /\ \A n \in Idx(obs) : (obs[n].k = "probe" /\ obs[n].st # "established") => obs[n].res = "err"
+  /\ \A n \in Idx(obs) : (obs[n].k = "out" /\ obs[n].kind \in DataKinds) =>
+        LET s == LastIdx(obs, n, LAMBDA e : e.k = "probe" /\ e.res # "err" /\ e.st = "established")
+            es == LastIdx(obs, n, LAMBDA e : IsInSes(e) /\ e.st = "established")
+        IN s > 0 /\ es > 0 /\ es < s
+
 =============================================================================
